@@ -3,7 +3,7 @@
 TLC enumerates every item sequence of the plan (alphabet x length) with its expected layout and contents;
 harness/c14_data.c (ASan/UBSan build, user MIR_alloc_t) builds each through the API, loads, links, prepares
 the label function and compares addresses, requested block sizes and every byte."""
-import json, os, subprocess, sys, copy, threading
+import atexit, json, os, subprocess, sys, copy, threading
 from concurrent.futures import ThreadPoolExecutor
 import vlib
 from vlib import Check, run_tlc, tlc_ok, MachineryError
@@ -45,13 +45,18 @@ _exe_lock = threading.Lock()
 
 
 def harness_exe():
+    """Library objects of the current tree (vlib cache) + the driver, linked once per run into out/hbuild (the object
+    cache may be pruned by concurrent checks while this one is running; the executable must not live there)."""
     global _exe
     with _exe_lock:
         if _exe is None:
             d, objs, cc, flags = vlib.build_lib("asan", units=("mir.c", "mir-gen.c"))
-            tmp = os.path.join(d, "c14_data.%d" % os.getpid())
-            vlib.cc_link(cc, flags, [os.path.join(vlib.HARNESS, "c14_data.c")], objs, tmp)
-            _exe = tmp
+            hb = os.path.join(vlib.OUT, "hbuild")
+            os.makedirs(hb, exist_ok=True)
+            exe = os.path.join(hb, "c14_data-%d" % os.getpid())
+            vlib.cc_link(cc, flags, [os.path.join(vlib.HARNESS, "c14_data.c")], objs, exe)
+            atexit.register(lambda: os.path.exists(exe) and os.unlink(exe))
+            _exe = exe
     return _exe
 
 
